@@ -105,6 +105,10 @@ structure Tables where
   supportClasses : List Nat
   /-- simpleTypes of the schema that carry enumerations (generateDS writes an `Enum` class for each) -/
   enumTypes : List Nat
+  /-- module-level imports of nml.py other than the ones generateDS's own header template writes -/
+  shippedImports : List Nat
+  /-- imports of the `--custom-imports-template` file (pasted into the header on regeneration) -/
+  templateImports : List Nat
   versions : Versions
 
 /-! ## Abstract sources (for the lifting lemma): `σ` is the type of normalised class-body statements -/
